@@ -86,6 +86,78 @@ def check(ctx):
                 "park reports Canceled only when the resumer injected the cancel error", pred_label="edge `err.kind()` is Other")
     # check_park: returns "need park" only when the token was not set; clears it
     CP = P + "::check_park"
+    f = ctx.fn("R-ENUM", CP, "check-park/answer-is-token-absent")
+    if f is not None:
+        rv = simplify(trace_local(f, 0))
+        alts = [simplify(a) for a in rv[2]] if rv[0] == "phi" else [rv]
+        def not_swap(o):
+            return o[0] == "un" and o[1] == "Not" and simplify(o[2])[0] == "call" and re.fullmatch(A("swap"), simplify(o[2])[2] or "") and \
+                   receiver_leaf(f, f.term(simplify(o[2])[1])) == P + ".state"
+        def const_false(o):
+            return o[0] == "const" and o[2] is not None and int(o[2]) == 0
+        bad = [a for a in alts if not (not_swap(a) or const_false(a))]
+        ok = not bad and any(not_swap(a) for a in alts)
+        ctx.ob("R-ENUM", CP, "check-park/answer-is-token-absent", ok, "check_park answers `need to block` with !state.swap(false) (or `false` on its fast path): it blocks exactly when no token was pending" if ok else
+               "check_park's answer is %s: it must be `!state.swap(false)` or the constant `false` of the fast path - answering `block` with a token pending loses that wake-up, "
+               "answering `don't block` without one makes Blocker::park return Ok although nobody unparked (the sync primitives take that as a hand-off)" % [fmt_origin(a) for a in alts], f.where())
+        # the constant `false` only behind the token-present edge, where the token is also consumed
+        cf = [pt for pt in f.points() if not f.is_term(pt) and f.node(pt).get("s") == "=" and not f.node(pt)["l"]["p"] and f.node(pt)["l"]["l"] == 0 and
+              f.node(pt)["rv"]["r"] == "use" and const_int(f, f.node(pt)["rv"]["o"]) == 0]
+        if cf:
+            ctx.guarded(CP, lambda g: cf, call_true(A("load"), P + ".state"), "check-park/fast-path-only-with-token", "the fast path answers `don't block` only when it saw the token", rule="R-ENUM",
+                        pred_label="edge `state.load()` is true")
+            ctx.must_follow(CP, None, Call(A("(store|swap)"), on=P + ".state", transitive=False), "check-park/fast-path-consumes-token", "the fast path consumes the token it saw", rule="R-PAIR",
+                            edge=call_true(A("load"), P + ".state"), edge_label="edge `state.load()` is true")
+    shared.flag_values(ctx, [("store", CP, P + ".state", 0, "check-park/clears-token", "check_park leaves the token cleared"),
+                             ("init", P + "::new", P + ".state", 0, "park/starts-without-token", "a fresh Park has no pending token (its first park blocks until an unpark)"),
+                             ("init", P + "::new", P + ".check_cancel", 1, "park/starts-cancellable", "a fresh Park is a cancellation point"),
+                             ("store", P + "::delay_drop", P + ".wait_kernel", 1, "park/delay-drop-sets-wait-kernel", "subscribe marks the Park as in use by the kernel side"),
+                             ("store", "<may::park::DropGuard as std::ops::Drop>::drop", P + ".wait_kernel", 0, "park/guard-drop-clears-wait-kernel", "leaving subscribe releases the Park")])
+    # ignore_cancel(b) stores !b, yield_back checks the cancel exactly when the flag is set
+    f = ctx.fn("R-ENUM", P + "::ignore_cancel", "ignore-cancel/stores-negation")
+    if f is not None:
+        vs = [simplify(trace_operand(f, f.node(pt)["args"][1])) for pt in sorted(ctx.an.sites(f, Call(A("store"), on=P + ".check_cancel", transitive=False), "must"))]
+        ok = bool(vs) and all(v[0] == "un" and v[1] == "Not" and simplify(v[2])[0] == "arg" for v in vs) and ctx.an.must(f, Call(A("store"), on=P + ".check_cancel", transitive=False))
+        ctx.ob("R-ENUM", P + "::ignore_cancel", "ignore-cancel/stores-negation", ok, "ignore_cancel(b) always stores check_cancel = !b" if ok else
+               "ignore_cancel does not (always) store `!ignore` into check_cancel: a primitive that asked to handle the cancel itself is killed inside park (its waiter entry, permit or lock hand-off is stranded), "
+               "or a plain park stops being a cancellation point", f.where())
+    YB = "<may::park::Park as may::coroutine_impl::EventSource>::yield_back"
+    CC = Call(re.escape(C) + "::check_cancel", transitive=False)
+    ctx.guarded(YB, CC, call_true(A("load"), P + ".check_cancel"), "yield-back/check-only-if-enabled", "Park::yield_back raises the Cancel panic only when the owner did not ask to ignore it",
+                pred_label="edge `check_cancel.load()` is true")
+    ctx.must_follow(YB, None, CC, "yield-back/check-if-enabled", "Park::yield_back checks the cancel whenever the Park is a cancellation point", edge=call_true(A("load"), P + ".check_cancel"),
+                    edge_label="edge `check_cancel.load()` is true")
+    # the armed timer's handle is kept (so that the resume can disarm it) and a linked handle is always handed to the timer thread
+    f = ctx.fn("R-PAIR", SUB, "arm/handle-kept")
+    if f is not None:
+        ok = False; site = None
+        for pt in sorted(ctx.an.sites(f, Call(re.escape(P) + "::set_timeout_handle", transitive=False), "must")):
+            site = pt
+            if shared.origin_reaches_call(f, trace_operand(f, f.node(pt)["args"][1]), r"may::scheduler::Scheduler::add_timer|may::timeout_list::TimerThread::add_timer"): ok = True
+        ok = ok and ctx.an.must(f, Call(re.escape(P) + "::set_timeout_handle", transitive=False))
+        ctx.ob("R-PAIR", SUB, "arm/handle-kept", ok, "subscribe always stores the handle of the timer it armed in the Park (the resume disarms through it)" if ok else
+               "Park::subscribe does not keep the handle of the timer it armed: the timer cannot be removed after an unpark and fires into a later park on the same Park (Timeout before its deadline)", f.where(site))
+    RTH = P + "::remove_timeout_handle"
+    if ctx.prog.fn(RTH) is not None:
+        DT = Call(r"may::scheduler::Scheduler::del_timer", transitive=False)
+        ctx.must_follow(RTH, None, DT, "disarm/linked-handle-goes-to-timer-thread", "a handle that is still linked in the timer list is handed to the timer thread for removal", edge=call_true(r"may_queue::mpsc_list_v1::Entry::is_link"),
+                        edge_label="edge `h.is_link()` is true")
+    # Drop for Park leaves only when the kernel side has left the Park
+    PD = "<may::park::Park as std::ops::Drop>::drop"
+    ctx.guarded(PD, Ev("ret"), call_false(A("load"), P + ".wait_kernel"), "drop/waits-for-kernel", "a Park is freed only after subscribe has left it (wait_kernel observed false)", rule="R-EXIT",
+                pred_label="edge `wait_kernel.load()` is false")
+    # after subscribe resumed the coroutine itself nothing else happens in it: the coroutine may have finished and freed the Park
+    f = ctx.fn("R-ORDER", SUB, "self-wake/run-is-last")
+    if f is not None:
+        runs = ctx.an.sites(f, Call(r"may::coroutine_impl::run_coroutine", transitive=False), "must")
+        if not runs:
+            ctx.ob("R-ORDER", SUB, "self-wake/run-is-last", True, "subscribe does not run a coroutine nested", f.where(), nontrivial=False)
+        else:
+            r = ctx.an.reach(f, [q for x in runs for q in ctx.an.after(f, x)])
+            late = sorted(x for x in r if f.is_term(x) and f.node(x)["t"] == "call" and not (callee_name(f.node(x)) or "").startswith(("std::mem::drop", "core::mem::drop")))
+            ctx.ob("R-ORDER", SUB, "self-wake/run-is-last", not late, "after running the re-taken coroutine nested, subscribe only returns" if not late else
+                   "Park::subscribe goes on (%s) after it ran the coroutine nested: that coroutine may have parked again or finished and dropped the Park - the later accesses race with it / touch freed memory" %
+                   (callee_name(f.node(late[0])) if late else ""), f.where(late[0] if late else sorted(runs)[0]))
     ctx.mo_floor(P + ".state", ("swap",), "ACQREL", "state-swap", "the unparker's writes are handed to the parker through the token",
                  only_in=re.escape(P) + r"::unpark_impl")
     ctx.mo_floor(P + ".state", ("load",), "ACQ", "state-load", "a token observed by load must carry the unparker's writes", min_sites=2)
@@ -199,3 +271,4 @@ def check(ctx):
     ctx.ob("R-API", "may::sync::atomic_option::AtomicOption", "surface", ok,
            "AtomicOption exposes exactly {none, some, store, take, clear}: unpark, timer and cancel cannot both resume the coroutine" if ok else
            "AtomicOption's inherent API is %s: an accessor beyond move-in/move-out lets two resumers obtain the same coroutine" % sorted(ms), None)
+    shared.park_api_forwarding(ctx)
